@@ -51,6 +51,10 @@ type ReqRec struct {
 	AbortAt  []int `json:"-"`
 	PanicAt  []int `json:"-"`
 	PanicSeq int64 `json:"-"`
+	// route cache bookkeeping
+	CacheKeys string `json:"-"` // keys from most to least recent when the request finished
+	Hits      int64  `json:"-"` // cache hits during the request
+	Stores    int64  `json:"-"` // cache stores during the request
 }
 
 // Canon is the comparable part of a record as one string.
@@ -545,6 +549,14 @@ func (w *World) Serve(task, idx int, rq *Req) *ReqRec {
 	t := shCur()
 	w.setCur(t, rs)
 	rec.StartSeq = shNextSeq()
+	hits0, stores0 := probeGet(prSiteBase+siteCacheHit), probeGet(prSiteBase+siteCacheStore)
+	defer func() {
+		rec.Hits, rec.Stores = probeGet(prSiteBase+siteCacheHit)-hits0, probeGet(prSiteBase+siteCacheStore)-stores0
+		if cr := w.R.VerifCache(); cr != nil {
+			ks, _ := cr.VerifKeys()
+			rec.CacheKeys = strings.Join(ks, ",")
+		}
+	}()
 	if rq.Kind == "match" {
 		func() {
 			defer func() {
